@@ -5,8 +5,10 @@
   the code's `Schema.__init__` registers them in the order a depth-first walk from that list meets them. `extendO` is `extend`
   with the `types` dict in that order (`extendOrder`); the driver runs it and the harness compares the order of every extension
   result — and of everything derived from one — with the live `schema.types` (`corr:registry-order`).
-  * `extendO_same`: same heap, same directives, roots, schema-level resolver; the `types` list has exactly the ENTRIES of
-    `extend`'s (`extendOrder_mem`) with distinct names (`extendOrder_nodup`): a re-ordering, whatever the walk reaches;
+  * `extendO_same`: same directives, roots, schema-level resolver; the `types` list has exactly the ENTRIES of `extend`'s
+    (`extendOrder_mem`) with distinct names (`extendOrder_nodup`): a re-ordering, whatever the walk reaches; the heap is
+    `extend`'s plus the `interfaces` of the object types the DOCUMENT defines (`type Zed implements Pet {…}`: `Ext.newIfaces`,
+    `setNewIfaces` — resolved by name through the result's registry, written on objects the call allocated);
   * so every statement about `extend` that does not depend on the position of an entry transfers: `extendO_frames_source`,
     `extendO_closed_wf` (closedness and well-formedness: `closed_wf_reorder` for any re-ordering of a registry);
   * `extendO_order_witness` / `extend_order_differs`: on the Dog / Pet witness listed as String, Query, Dog, Pet the extension
@@ -14,6 +16,7 @@
     while the rebuild order is String, Query, Dog, Pet, Zed.
 -/
 import PyGqlModel.Lemmas.HeapCloneClosed
+import PyGqlModel.Lemmas.HeapExtOwn
 import PyGqlModel.Props.C14_extend_closed
 
 set_option linter.unusedSimpArgs false
@@ -104,21 +107,89 @@ theorem closed_wf_reorder {h : Heap} {s s' : Schema} (hd : s'.dirs = s.dirs) (hq
   exact ⟨⟨⟨⟨⟨⟨fun e he => c1 e ((hm e).mp he), c2⟩, c3⟩, c4⟩, c5⟩, fun e he => c6 e ((hm e).mp he)⟩,
     ⟨⟨⟨⟨⟨⟨fun e he => w1 e ((hm e).mp he), w2⟩, w3⟩, w4⟩, w5⟩, fun e he => w6 e ((hm e).mp he)⟩, fun e he => w7 e ((hm e).mp he)⟩, hn'⟩
 
+/-! ### the interfaces of the object types the document defines -/
+
+theorem setNewIfaces_step (reg : List (String × Addr)) (nn : List String) : ∀ (l : List (String × List String)) (h : Heap),
+    StepImp (refOK reg) h (setNewIfaces reg nn h l) := by
+  intro l
+  induction l with
+  | nil => intro h; exact StepImp.refl _ h
+  | cons e rest ih =>
+    intro h
+    obtain ⟨n, ms⟩ := e
+    simp only [setNewIfaces]
+    split
+    · split
+      · split
+        · rename_i na hl _ t ht
+          exact (write_type_ifaces (refOK reg) h na t _ ht (healedRefs_ok reg _)).trans (ih _)
+        · exact ih h
+      · exact ih h
+    · exact ih h
+
+theorem setNewIfaces_frame (reg : List (String × Addr)) (nn : List String) (b : Nat)
+    (hb : ∀ n na, nn.contains n = true → lookup reg n = some na → b ≤ na) : ∀ (l : List (String × List String)) (h : Heap),
+    (setNewIfaces reg nn h l).size = h.size ∧ ∀ x, x < b → (setNewIfaces reg nn h l).read x = h.read x := by
+  intro l
+  induction l with
+  | nil => intro h; exact ⟨rfl, fun _ _ => rfl⟩
+  | cons e rest ih =>
+    intro h
+    obtain ⟨n, ms⟩ := e
+    simp only [setNewIfaces]
+    split
+    · rename_i hc
+      split
+      · rename_i na hl
+        split
+        · obtain ⟨k1, k2⟩ := ih (h.write na (.type _))
+          refine ⟨by rw [k1, size_write], fun x hx => ?_⟩
+          rw [k2 x hx]
+          exact read_write_other h na x _ (fun e => absurd (e ▸ hb n na hc hl) (Nat.not_le.mpr hx))
+        · exact ih h
+      · exact ih h
+    · exact ih h
+
+private theorem wfs_keep {chk : Ref → Bool} {h h' : Heap} {s : Schema} (st : StepImp chk h h') (w : WFs chk h s) : WFs chk h' s :=
+  ⟨fun e he => typeShape_keep st e.2 (w.types e he), fun e he => dirShape_keep st e.2 (w.dirs e he),
+   fun e he => nameOK_keep st e (w.names e he), fun e he => protLeaf_keep st e (w.prot e he), w.nodup⟩
+
 /-! ### `extendO` -/
 
-/-- same heap, directives, roots, schema-level resolver; the same registry entries -/
+/-- same directives, roots, schema-level resolver; the same registry entries, re-ordered; the heap differs from `extend`'s only in
+    the `interfaces` of the object types the document defines (`setNewIfaces`) — not at all when it declares none -/
 theorem extendO_same (cfg : Cfg) (ext : Ext) (s : Schema) (h : Heap) (hn : (regNames (extend cfg ext s h).2.types).Nodup) :
-    (extendO cfg ext s h).1 = (extend cfg ext s h).1 ∧ (extendO cfg ext s h).2.dirs = (extend cfg ext s h).2.dirs ∧
+    (extendO cfg ext s h).2.dirs = (extend cfg ext s h).2.dirs ∧
     (extendO cfg ext s h).2.query = (extend cfg ext s h).2.query ∧ (extendO cfg ext s h).2.mutation = (extend cfg ext s h).2.mutation ∧
     (extendO cfg ext s h).2.subscription = (extend cfg ext s h).2.subscription ∧ (extendO cfg ext s h).2.dres = (extend cfg ext s h).2.dres ∧
     (regNames (extendO cfg ext s h).2.types).Nodup ∧
-    ∀ e, e ∈ (extendO cfg ext s h).2.types ↔ e ∈ (extend cfg ext s h).2.types :=
-  ⟨rfl, rfl, rfl, rfl, rfl, rfl, extendOrder_nodup _ _ _ _, extendOrder_mem _ _ _ _ hn⟩
+    (∀ e, e ∈ (extendO cfg ext s h).2.types ↔ e ∈ (extend cfg ext s h).2.types) ∧
+    (ext.newIfaces = [] → (extendO cfg ext s h).1 = (extend cfg ext s h).1) :=
+  ⟨rfl, rfl, rfl, rfl, rfl, extendOrder_nodup _ _ _ _, extendOrder_mem _ _ _ _ hn, fun he => by simp only [extendO, he, setNewIfaces]⟩
 
-theorem extendO_frames_source (cfg : Cfg) (ext : Ext) (s : Schema) (h : Heap) : Frame h (extendO cfg ext s h).1 :=
-  extend_frames_source cfg ext s h
+/-- FULL: no object of the source heap is written (the interfaces are written on objects the call allocated) -/
+theorem extendO_frames_source (cfg : Cfg) (hk : cfg.extKeepAll = true) (ext : Ext) (s : Schema) (h : Heap)
+    (hnp : ∀ e, e ∈ ext.newTypes → isProtected e.1 = false) : Frame h (extendO cfg ext s h).1 := by
+  have f := extend_frames_source cfg ext s h
+  obtain ⟨_, rf⟩ := extend_ok cfg hk ext s h
+  have hb : ∀ n na, (ext.newTypes.map (·.1)).contains n = true → lookup (extend cfg ext s h).2.types n = some na → h.size ≤ na := by
+    intro n na hc hl
+    rcases rf.1 (n, na) (lookup_mem' hl) with hp | hp
+    · simp only [List.contains_iff_mem, List.mem_map] at hc
+      obtain ⟨e, he, rfl⟩ := hc
+      rw [hnp e he] at hp
+      cases hp
+    · exact hp
+  obtain ⟨k1, k2⟩ := setNewIfaces_frame (extend cfg ext s h).2.types (ext.newTypes.map (·.1)) h.size hb ext.newIfaces (extend cfg ext s h).1
+  refine ⟨?_, fun a ha => ?_⟩
+  · show h.size ≤ (setNewIfaces _ _ _ _).size
+    rw [k1]; exact f.1
+  · show (setNewIfaces _ _ _ _).read a = h.read a
+    rw [k2 a ha]; exact f.2 a ha
 
-/-- FULL: the extension result WITH THE CODE'S DICT ORDER is closed and well-formed (same hypotheses as `extend_closed_wf`) -/
+/-- FULL: the extension result as the code builds it — the document's `implements` clauses and the dict order included — is
+    closed and well-formed (same hypotheses as `extend_closed_wf`; interface names that are not registered are dropped by the
+    model where the code raises) -/
 theorem extendO_closed_wf (cfg : Cfg) (hk : cfg.extKeepAll = true) (hin : cfg.extInputFieldExtended = true) (ext : Ext) (s : Schema) (h : Heap)
     (hc : closedB h s = true) (hw : wfB h s = true) (hok : ExtOK s ext) (hnp : ∀ e, e ∈ ext.newTypes → isProtected e.1 = false) :
     closedB (extendO cfg ext s h).1 (extendO cfg ext s h).2 = true ∧ wfB (extendO cfg ext s h).1 (extendO cfg ext s h).2 = true := by
@@ -127,8 +198,15 @@ theorem extendO_closed_wf (cfg : Cfg) (hk : cfg.extKeepAll = true) (hin : cfg.ex
     have w' := w
     simp only [wfB, Bool.and_eq_true, namesNodup, decide_eq_true_eq] at w'
     exact w'.2
-  obtain ⟨_, e2, e3, e4, e5, _, e7, e8⟩ := extendO_same cfg ext s h hn
-  exact closed_wf_reorder e2 e3 e4 e5 e7 e8 c w
+  have ws := wfs_keep (setNewIfaces_step (extend cfg ext s h).2.types (ext.newTypes.map (·.1)) ext.newIfaces (extend cfg ext s h).1)
+    (wfs_of_closedB c w)
+  have hroots := c
+  simp only [closedB, shapeB, Bool.and_eq_true] at hroots
+  have c2 : closedB (extendO cfg ext s h).1 (extend cfg ext s h).2 = true :=
+    closedB_of_wfs _ _ ws hroots.1.1.1.2 hroots.1.1.2 hroots.1.2
+  have w2 : wfB (extendO cfg ext s h).1 (extend cfg ext s h).2 = true := wfB_of_wfs ws
+  obtain ⟨e2, e3, e4, e5, _, e7, e8, _⟩ := extendO_same cfg ext s h hn
+  exact closed_wf_reorder (s := (extend cfg ext s h).2) e2 e3 e4 e5 e7 e8 c2 w2
 
 /-! ### the order on the witness -/
 
@@ -140,6 +218,19 @@ theorem extendO_order_witness : (extendO Cfg.fixed zed sW h0).2.types.map (·.1)
 
 /-- … while the types were REBUILT in the source's order -/
 theorem extend_order_differs : (extend Cfg.fixed zed sW h0).2.types.map (·.1) = ["String", "Query", "Dog", "Pet", "Zed"] := by decide
+
+/-- `extend_schema(s0, "type Zed implements Pet { name: String }")` -/
+def zedPet : Ext := { newTypes := [("Zed", [{ name := "name", ty := .named "String", args := [] }])], fields := [], inputFields := [],
+                      members := [], values := [], newDirs := [], newIfaces := [("Zed", ["Pet"])] }
+
+/-- the new object type declares the interface: its `interfaces` list holds THE `Pet` object registered in the result, the result
+    is closed and well-formed, and the source heap is untouched -/
+theorem extendO_ifaces_witness :
+    closedB (extendO Cfg.fixed zedPet s0 h0).1 (extendO Cfg.fixed zedPet s0 h0).2 = true ∧
+    wfB (extendO Cfg.fixed zedPet s0 h0).1 (extendO Cfg.fixed zedPet s0 h0).2 = true ∧
+    ((lookup (extendO Cfg.fixed zedPet s0 h0).2.types "Zed").bind fun a => ((extendO Cfg.fixed zedPet s0 h0).1.readType a).map fun t =>
+      t.ifaces.map fun r => (r.name, lookup (extendO Cfg.fixed zedPet s0 h0).2.types r.name == some r.addr)) = some [("Pet", true)] := by
+  decide
 
 /-- non-vacuity: the re-listed witness is closed and well-formed -/
 example : closedB h0 sW = true ∧ wfB h0 sW = true := by decide
